@@ -240,6 +240,17 @@ func (te *TEnv) bin(x EBin) TV {
 		return TV{Eq(te.bool(x.X), te.bool(x.Y)), nil}
 	}
 	if x.Op == "==" || x.Op == "!=" {
+		xa0, xb0 := te.tr(x.X), te.tr(x.Y)
+		if sa, ok := xa0.V.(SliceV); ok {
+			if sb, ok := xb0.V.(SliceV); ok {
+				// slices are equal (as values) when they view the same cells
+				r := And(Eq(sa.L, sb.L), Or(Eq(sa.L, IntLit(0)), And(Eq(sa.B, sb.B), Eq(sa.O, sb.O))))
+				if x.Op == "!=" {
+					r = Not(r)
+				}
+				return TV{r, nil}
+			}
+		}
 		// the address of a field is nil exactly when... never: the object was dereferenced to form it
 		xa, xb := te.tr(x.X), te.tr(x.Y)
 		if av, ok := xa.V.(AddrV); ok {
